@@ -51,7 +51,7 @@ func (c14) Gen(r *rand.Rand, tier string, run int) *core.Case {
 				op = core.Op{Kind: "set-rejected", X: -next}
 				next++
 			case x < 10:
-				op = core.Op{Kind: "set-wrong-type", X: int64(r.IntN(5)), Y: int64(r.IntN(2)), S: strconv.Itoa(int(next))}
+				op = core.Op{Kind: "set-wrong-type", X: int64(r.IntN(8)), Y: int64(r.IntN(2)), S: strconv.Itoa(int(next))}
 				next++
 			case x < 11:
 				op = core.Op{Kind: "rawget"}
@@ -262,8 +262,16 @@ func (c14) Run(c *core.Case, env *core.Env) {
 						v = value.Long(int64(n))
 					case 3:
 						v = value.Uint(uint32(n))
-					default:
+					case 4:
 						v = value.List([]value.Value{value.Int(int32(n))})
+					case 5:
+						// the declared type wrapped in a one-member tuple: the
+						// same bytes as a well-typed write, another type
+						v = value.Opaque("(i)", value.Bytes(value.Int(int32(n))))
+					case 6:
+						v = value.Opaque("(i)<Level,value>", value.Bytes(value.Int(int32(n))))
+					default:
+						v = value.Int16(int16(n))
 					}
 					var name value.Value = value.String("level")
 					if op.Y == 1 {
